@@ -784,6 +784,9 @@ def run(R):
         for k, unknown in viol[:3]:
             R.violation("implementation breaks the property: " + "; ".join(m for _, m in unknown)[:400],
                         {"case": cases[k], "impl": ios[k], "model": mos[k], "deviations": unknown})
+        if viol and shape_problems:
+            R.violation("source shape changed (atomicity facts / SQL texts the model and the theorems rest on): " +
+                        "; ".join(shape_problems)[:600], {"shape_problems": shape_problems})
         failed = {k for k, _ in viol}
         pure = [k for k in dis if k not in failed]
         if (pure or not lean_ok or shape_problems) and not viol:
